@@ -92,10 +92,6 @@ def run_scenario(policy, mn, mx, progs, monitor=None, max_steps=4000):
             sc.point(("set", "__iter__"))
             return iter(tuple(set.__iter__(self)))
 
-    def mkset(name):
-        st = iset()
-        return st
-
     ev_count = [0]
 
     def mk_event():
@@ -185,7 +181,6 @@ def run_scenario(policy, mn, mx, progs, monitor=None, max_steps=4000):
                         try:
                             pool.process(make_job(k))
                             rec["status"] = "a"
-                            # which worker holds the job: the one whose slot is this job object (read without points)
                             run.events.append(("accepted", k))
                         except svr_threads.NoFreeWorkersError:
                             rec["status"] = "n"
